@@ -124,7 +124,7 @@ theorem st0_newNames (a b : Vsys) : (st0 a b).bGrp.map (·.newName) = newGroupNa
   simp only
   rw [List.map_map]
   have hl : (newGroupNames a b).length = (sortVsys b).groups.length := by
-    unfold newGroupNames; rw [uniqNames_length]; simp
+    unfold newGroupNames; rw [groupNamesFor_length]
   have : ((sortVsys b).groups.zip (newGroupNames a b)).map ((fun x => x.newName) ∘ fun x => ({ g := x.1, newName := x.2 } : BGrp)) =
       ((sortVsys b).groups.zip (newGroupNames a b)).map Prod.snd := by
     apply List.map_congr_left; intro p _; rfl
@@ -160,7 +160,7 @@ theorem grp_transfer (sh : Shared) (diff : Differ) (hd : GoodDiffer diff) (hid :
     have h2 := congrArg (List.map (fun p : Grp × String × String => p.2.1)) (stM_gmark a b).bg
     simp only [List.map_map, Function.comp_def] at h1 h2
     rw [h1, h2, st0_newNames]
-  obtain ⟨_, hnnd, _⟩ := uniqNames_spec suffixInj ((sortVsys a).groups.map (·.name)) ((sortVsys b).groups.map (·.name))
+  obtain ⟨_, hnnd, _, _⟩ := groupNamesFor_spec suffixInj (sortVsys a) (sortVsys b)
     (by rw [sortVsys_groups_names]; exact hbgn)
   have hgn : (((planState diff a b).bGrp.filter (·.needed)).map (·.newName)).Nodup := by
     have : (((planState diff a b).bGrp.filter (·.needed)).map (·.newName)).Sublist
